@@ -313,6 +313,34 @@ func c10Branches(r *ev.Result, base, fdir string, texts []string) int {
 					c.Send("POST " + ep + t + " HTTP/1.1\r\nHost: " + w.Addr + "\r\nTransfer-Encoding: chunked\r\n\r\n")
 				}
 				ns, ok := w.WaitNotice(func(cl opshell.CLine) bool { return strings.Contains(cl.Line, "connected: ID") })
+				if ok {
+					/* A bidirectional client next to it: the side that
+					is refused for the ID's sake is told which ID was
+					expected - the attached client's text. */
+					cio, err := w.Dial("")
+					if nil != err {
+						ev.Broken("%s", err)
+					}
+					/* (Which of its two sides is refused first, and whether the
+					other still gets as far as a notice, is the scheduler's
+					choice: the request is answered once both are done, and
+					what has been said by then is judged.) */
+					_, derr := cio.Do("POST /io HTTP/1.1\r\nHost: " + w.Addr + "\r\nTransfer-Encoding: chunked\r\nConnection: close\r\n\r\n0\r\n\r\n")
+					cio.Close()
+					rs := w.Drain()
+					named := false
+					for _, cl := range rs {
+						if strings.Contains(cl.Line, "Rejected") && strings.Contains(cl.Line, "with ID") {
+							named = true
+						}
+					}
+					if nil == derr && named {
+						c10Judge(r, c10Case{Position: "io-refused-next-to" + strings.TrimSuffix(ep, "/"), Text: t}, rs, strconv.Quote(unesc), "with ID")
+						n++
+					} else if nil == derr {
+						c10Judge(r, c10Case{Position: "io-refused-next-to" + strings.TrimSuffix(ep, "/"), Text: t}, rs, "", "Rejected")
+					}
+				}
 				c.Close()
 				more, ok2 := w.WaitNotice(func(cl opshell.CLine) bool { return strings.HasPrefix(cl.Line, "\ncurl") })
 				cs := c10Case{Position: "attach" + strings.TrimSuffix(ep, "/"), Text: t}
